@@ -450,8 +450,7 @@ func FuzzVerifC16(f *testing.F) {
 		}
 		if err := totality(b); err != nil {
 			c := &bytesCase{Hex: hex.EncodeToString(b)}
-			st := vkit.NewStats("C16", "totality")
-			st.Unit = "totality"
+			st := vkit.NewStats("C16", "totality") // same unit as the rapid check: its replay path runs the saved input
 			st.Violation(err.Error(), c)
 			t.Fatal(err)
 		}
